@@ -33,10 +33,39 @@ call_kw = fn("call.kw", Ref, S, Ref)
 call_haskw = fn("call.haskw", Ref, S, z3.BoolSort())
 
 
+iter_ = fn("dyn.iter", Ref, Ref)                  # the sequence an iterable yields (Seq[Any])
+yempty = z3.Const("stream.empty", Ref)
+ysnoc = fn("stream.snoc", Ref, Ref, Ref)           # stream followed by one element
+yprefix = fn("stream.prefix", Ref, Ref, z3.IntSort(), Ref)   # stream followed by the first j elements of a sequence
+
+
+def _rule_yprefix(t):
+    s, q, j = t.children()
+    return [z3.Implies(j == 0, t == s),
+            z3.Implies(j > 0, t == ysnoc(yprefix(s, q, j - 1), seq_at(q, j - 1, ANY)))]
+
+
 def base_axioms():
     """Only non-quantified facts live here; the algebra of get/set/literals is applied by ground instantiation
     (`DynModel.ground_instances`): quantifier-free queries give decisive sat/unsat answers and usable counter-models."""
     return [z3.Not(truthy_(NONE))]
+
+
+def dget(o, p):
+    """Read-over-write normal form of get_(o, p): resolves reads of set_(...) / ite(...) terms at construction time."""
+    if isinstance(p, str):
+        p = z3.StringVal(p)
+    if z3.is_app(o):
+        name = o.decl().name()
+        if name == "dyn.set":
+            o2, p2, v2 = o.children()
+            if z3.is_string_value(p) and z3.is_string_value(p2):
+                return v2 if p.as_string() == p2.as_string() else dget(o2, p)
+            return z3.If(p2 == p, v2, dget(o2, p))
+        if o.decl().kind() == z3.Z3_OP_ITE:
+            c, a, b = o.children()
+            return z3.If(c, dget(a, p), dget(b, p))
+    return get_(o, p)
 
 
 def _has_var(t, memo):
@@ -104,7 +133,7 @@ def _rule_get(t):
     return []
 
 
-GROUND_RULES = {"dyn.str": [_rule_str], "dyn.int": [_rule_int], "dyn.bool": [_rule_bool], "dyn.set": [_rule_set], "dyn.get": [_rule_get]}
+GROUND_RULES = {"stream.prefix": [_rule_yprefix], "dyn.str": [_rule_str], "dyn.int": [_rule_int], "dyn.bool": [_rule_bool], "dyn.set": [_rule_set], "dyn.get": [_rule_get]}
 
 
 class DynModel(Model):
@@ -118,6 +147,33 @@ class DynModel(Model):
         self.known_callables = {}      # dotted name -> handler(ex, args, kwargs, st, node) -> V
         self.self_name = "self"
         self.ground_rules = {k: list(v) for k, v in GROUND_RULES.items()}
+        self.yield_mode = "seq"        # "seq": indexable ghost log `_yielded`; "stream": abstract stream `_stream` (supports yield from)
+        self.yield_checks = []         # (name, contract-language expression over the env + `_value`) checked at every yield
+
+    def quantified_axioms(self):
+        """The same algebra as the ground rules, as universally quantified axioms with triggers.  Used only in the E-matching
+        pass of discharge (mbqi off): it can close goals that need congruence reasoning between the instances."""
+        o, v = z3.Consts("qo qv", Ref)
+        p, q = z3.Consts("qp qq", S)
+        s_ = z3.Const("qs", S)
+        i = z3.Int("qi")
+        j = z3.Int("qj")
+        b = z3.Bool("qb")
+        st = z3.Const("qst", Ref)
+        sq = z3.Const("qsq", Ref)
+        ax = [
+            z3.ForAll([o, p, v], get_(set_(o, p, v), p) == v, patterns=[set_(o, p, v)]),
+            z3.ForAll([o, p, q, v], z3.Implies(p != q, get_(set_(o, p, v), q) == get_(o, q)), patterns=[get_(set_(o, p, v), q)]),
+            z3.ForAll([o, p, v], set_(o, p, v) != NONE, patterns=[set_(o, p, v)]),
+            z3.ForAll([s_], z3.And(truthy_(strlit(s_)) == (z3.Length(s_) > 0), strlit(s_) != NONE, fn("dyn.unstr", Ref, S)(strlit(s_)) == s_),
+                      patterns=[strlit(s_)]),
+            z3.ForAll([i], z3.And(truthy_(intlit(i)) == (i != 0), intlit(i) != NONE), patterns=[intlit(i)]),
+            z3.ForAll([b], z3.And(truthy_(boollit(b)) == b, boollit(b) != NONE), patterns=[boollit(b)]),
+            z3.ForAll([st, sq, j], z3.And(z3.Implies(j == 0, yprefix(st, sq, j) == st),
+                                          z3.Implies(j > 0, yprefix(st, sq, j) == ysnoc(yprefix(st, sq, j - 1), seq_at(sq, j - 1, ANY)))),
+                      patterns=[yprefix(st, sq, j)]),
+        ]
+        return ax + list(getattr(self, "extra_quantified_axioms", []))
 
     def add_ground_rule(self, decl_name, rule):
         """rule(term) -> list of ground facts; applied to every ground application of `decl_name` in a query."""
@@ -126,6 +182,23 @@ class DynModel(Model):
     def ground_instances(self, formulas, rounds=4):
         facts, done = [], set()
         cur = list(formulas)
+        # aliases: an opaque term known (by a top-level equation) to equal a set_(...) term is read through that term
+        alias = {}
+        for f in formulas:
+            if z3.is_eq(f):
+                a, b = f.children()
+                for x, y in ((a, b), (b, a)):
+                    if z3.is_app(y) and y.decl().name() == "dyn.set" and not (z3.is_app(x) and x.decl().name() == "dyn.set"):
+                        alias[x.get_id()] = y
+        if alias:
+            extra = []
+            for t in subterms(formulas).get("dyn.get", []):
+                x, q = t.children()
+                y = alias.get(x.get_id())
+                if y is not None:
+                    extra.append(t == dget(y, q))
+            facts.extend(extra)
+            cur = cur + extra
         for _ in range(rounds):
             new = []
             for name, terms in subterms(cur).items():
@@ -178,7 +251,7 @@ class DynModel(Model):
 
     def getattr(self, ex, base, attr, st, node=None):
         if base.ty == ANY:
-            return V(get_(base.term, z3.StringVal(attr)), ANY)
+            return V(dget(base.term, z3.StringVal(attr)), ANY)
         if base.ty is PY and isinstance(base.py, tuple) and base.py and base.py[0] == "dotted":
             return pyv(("dotted", base.py[1] + "." + attr))
         return super().getattr(ex, base, attr, st, node)
@@ -227,7 +300,7 @@ class DynModel(Model):
     def _set_path(self, obj, path, val):
         if len(path) == 1:
             return set_(obj, z3.StringVal(path[0]), val)
-        inner = get_(obj, z3.StringVal(path[0]))
+        inner = dget(obj, z3.StringVal(path[0]))
         return set_(obj, z3.StringVal(path[0]), self._set_path(inner, path[1:], val))
 
     def setitem(self, ex, base, idx, val, st, node):
@@ -236,7 +309,7 @@ class DynModel(Model):
             return False
         cur = st.env[root].term
         for p in path:
-            cur = get_(cur, z3.StringVal(p))
+            cur = dget(cur, z3.StringVal(p))
         new = fn("dyn.setitem", Ref, Ref, Ref, Ref)(cur, self.dyn(ex, idx).term, self.dyn(ex, val).term)
         st.env[root] = V(self._set_path(st.env[root].term, path, new) if path else new, ANY)
         return True
@@ -319,6 +392,17 @@ class DynModel(Model):
         if isinstance(node, ast.YieldFrom):
             return self.yield_from(ex, node, st)
         v = self.dyn(ex, ex.ev(node.value, st)) if node.value is not None else V(NONE, ANY)
+        for name, expr in self.yield_checks:
+            env = dict(st.env)
+            env["_value"] = v
+            t, extra, _ = self.eval_spec(ex, expr, env, st)
+            for f in extra:
+                st.assume(f)
+            ex.oblige(f"{ex.fname}:at-yield:{name}@L{node.lineno}", st, t, node)
+        if self.yield_mode == "stream":
+            cur = st.env.get("_stream", V(yempty, ANY))
+            st.env["_stream"] = V(ysnoc(cur.term, v.term), ANY)
+            return [Outcome("fall", st)]
         log = st.env.get("_yielded")
         if log is None:
             log = tup([])
@@ -329,7 +413,43 @@ class DynModel(Model):
         return [Outcome("fall", st)]
 
     def yield_from(self, ex, node, st):
-        raise Unsupported("yield from")
+        if self.yield_mode != "stream":
+            raise Unsupported("yield from (seq mode)")
+        x = self.dyn(ex, ex.ev(node.value, st))
+        q = iter_(x.term)
+        cur = st.env.get("_stream", V(yempty, ANY))
+        st.assume(seq_len(q) >= 0)
+        st.env["_stream"] = V(yprefix(cur.term, q, seq_len(q)), ANY)
+        return [Outcome("fall", st)]
+
+    def for_loop(self, ex, s, it, st):
+        if it.ty == ANY:
+            q = V(iter_(it.term), SeqT(ANY))
+            st.assume(seq_len(q.term) >= 0)
+            key = self.loop_key(ex, "for")
+            return self.invariant_for(ex, s, key, q, lambda k: V(seq_at(q.term, k, ANY), ANY), st)
+        return super().for_loop(ex, s, it, st)
+
+    def havoc(self, ex, st, names, node):
+        names = set(names)
+        for g in ("_stream", "_yielded", "_calls"):
+            if g in st.env:
+                names.add(g)
+        for name in names:
+            root = name.split(".")[0]
+            if root not in st.env:
+                continue
+            v = st.env[root]
+            if v.ty is TUPLE and root in ("_yielded", "_calls"):
+                v = self.tuple_to_seq(ex, v, st)
+            if v.ty is PY or v.ty is TUPLE:
+                raise Unsupported(f"loop at line {node.lineno} modifies python-side value {root}")
+            nv = V(fresh("hv." + root, v.ty.sort()), v.ty)
+            st.env[root] = nv
+            if isinstance(v.ty, SeqT):
+                st.assume(seq_len(nv.term) >= 0)
+            if root == "_calls":
+                st.ghost["calls"] = nv
 
     def make_list(self, ex, items, st):
         return tup(items)
@@ -342,7 +462,25 @@ class DynModel(Model):
     def try_stmt(self, ex, s, st):
         raise Unsupported("try in emitted code")
 
+    def ghosts_to_seq(self, ex, st):
+        for g in ("_yielded", "_calls"):
+            if g in st.env and st.env[g].ty is TUPLE:
+                st.env[g] = self.tuple_to_seq(ex, st.env[g], st)
+                if g == "_calls":
+                    st.ghost["calls"] = st.env[g]
+
+    def while_loop(self, ex, s, st):
+        self.ghosts_to_seq(ex, st)
+        return super().while_loop(ex, s, st)
+
+    def invariant_for(self, ex, s, key, seq, elem, st):
+        self.ghosts_to_seq(ex, st)
+        return super().invariant_for(ex, s, key, seq, elem, st)
+
     def havoc_while(self, ex, st, names, node):
+        return self.havoc(ex, st, names, node)
+
+    def _old_havoc_while(self, ex, st, names, node):
         for name in list(names):
             root = name.split(".")[0]
             if root in st.env and st.env[root].ty == ANY:
